@@ -1,7 +1,7 @@
 (** * C09: <, <=, >, >= follow ECMAScript relational comparison, incl. between.
     Statements only; proofs are in Proofs/Compare.v.  The string-to-number scanner lemma is Proofs/Scan.v (str_to_number_spec). *)
 From Coq Require Import List Bool.
-From JL Require Import Base.Json Base.F64 Base.Str Base.Dec2Flt Base.Monad Model.JsOp Model.Ops Spec.Specs Spec.OpSpecs Proofs.Compare Proofs.Scan Proofs.CharTables Gen.CharTable.
+From JL Require Import Base.Json Base.F64 Base.Str Base.Dec2Flt Base.Monad Model.JsOp Model.Ops Spec.Specs Spec.OpSpecs Proofs.Compare Proofs.Scan Proofs.CharTables Gen.CharTable Proofs.ModelLaws.
 From Coq Require Import String NArith ZArith.
 Local Open Scope string_scope.
 Import ListNotations.
@@ -58,3 +58,26 @@ Example C09_nonvacuous :
   es_lt (Arr [Num (PosInt 10%N)]) (Arr [Num (PosInt 9%N)]) = true /\
   es_lt (Num (PosInt 1%N)) (Str (lit "abc")) = false /\ es_le (Str (lit "abc")) (Num (PosInt 1%N)) = false.
 Proof. vm_compute. repeat split. Qed.
+
+(** order laws of the code's relational helpers (Proofs/ModelLaws.v): < is asymmetric, implies <=
+    and excludes >=; <= with >= means the operands compare equal.  null <= 0, null >= 0 although
+    null == 0 is false: <= is not "< or ==" (the defect repaired in /repo). *)
+Theorem C09_order_laws :
+  forall a b,
+    (abstract_lt a b = true -> abstract_lt b a = false) /\
+    (abstract_lt a b = true -> abstract_lte a b = true) /\
+    (abstract_lt a b = true -> abstract_gte a b = false) /\
+    (abstract_lte a b = true -> abstract_gte a b = true -> es_compare a b = Some Eq).
+Proof.
+  exact (fun a b => conj (code_lt_asym a b) (conj (code_lt_implies_lte a b)
+          (conj (code_lt_excludes_gte a b) (code_lte_gte_compare_eq a b)))).
+Qed.
+Print Assumptions C09_order_laws.
+
+Theorem C09_null_zero :
+  abstract_lte Null (Num (Float f64_zero)) = true /\
+  abstract_gte Null (Num (Float f64_zero)) = true /\
+  abstract_eq Null (Num (Float f64_zero)) = false /\
+  abstract_lt Null (Num (Float f64_zero)) = false.
+Proof. exact code_null_lte_zero. Qed.
+Print Assumptions C09_null_zero.
